@@ -64,7 +64,7 @@ theorem Wf2.fenceStep {c : Cfg} (sh : Shape c) {s : State} (h1 : Wf1 c s) (h : W
   rw [norm_of_localRet c.ceil old hr]
   have hex : excl { th with view := if o.isAcquire then vjoin th.view th.pend else th.view, pc := some ⟨k, rest, old⟩ } = excl th := by
     cases k <;> simp [excl, hpc, localRet]
-  refine h.upd ht rfl rfl rfl rfl rfl rfl rfl ?_ ?_ ?_ ?_
+  refine h.upd ht rfl rfl rfl rfl rfl rfl (Or.inl rfl) ?_ ?_ ?_ ?_
   · cases k <;> simp [owned, inflight, hpc, localRet] <;> congr
   · intro u
     dsimp only
@@ -90,19 +90,19 @@ theorem Wf2.retStep {c : Cfg} {s s' : State} (h : Wf2 c s) {t : Nat} {th th' : T
     (hrace : s'.race = s.race) (huaf : s'.uaf = s.uaf)
     (hown : owned th' = owned th) (hview : th'.view = th.view) (hpc : th'.pc = none)
     (hx : excl th = false) : Wf2 c s' := by
-  refine h.upd ht hthr hlast hfreed hacc hwr hrace huaf hown ?_ ?_ ?_
+  refine h.upd ht hthr hlast hfreed hacc hwr hrace (Or.inl huaf) hown ?_ ?_ ?_
   · intro u; rw [hview]; exact Nat.le_refl _
   · intro _ _; exact hx
   · intro he; simp [excl, hpc] at he
 
 /-- A load (or failed CAS) that does not establish exclusive access. -/
 theorem Wf2.loadStep {c : Cfg} {s : State} (h : Wf2 c s) {t : Nat} {th : Thread}
-    (ht : s.thr[t]? = some th) (i : Nat) (o : Ord) (pc' : Pc)
+    (ht : s.thr[t]? = some th) (hf0 : s.freed = 0) (i : Nat) (o : Ord) (pc' : Pc)
     (hown : owned (acquireInto { th with coh := i, pc := some pc' } o (s.msgAt i).rel) = owned th)
     (hx : excl th = false)
     (hx' : excl (acquireInto { th with coh := i, pc := some pc' } o (s.msgAt i).rel) = false) :
     Wf2 c (doLoad s t th i o pc') := by
-  refine h.upd ht rfl rfl rfl rfl rfl rfl rfl hown ?_ ?_ ?_
+  refine h.upd ht rfl rfl rfl rfl rfl rfl (Or.inr ⟨hf0, rfl⟩) hown ?_ ?_ ?_
   · intro u
     exact vat_acquireInto_view_le { th with coh := i, pc := some pc' } o (s.msgAt i).rel u
   · intro _ _; exact hx
@@ -118,7 +118,7 @@ theorem Wf2.loadUniq {c : Cfg} (sh : Shape c) (ho : Ords sh) {s : State} (h1 : W
     rcases hk with rfl | rfl <;> simp [owned, inflight, hpc]
   have hxth : excl th = false := by
     rcases hk with rfl | rfl <;> simp [excl, hpc, sh.huniq, localRet]
-  refine h.upd ht rfl rfl rfl rfl rfl rfl rfl ?_ ?_ ?_ ?_
+  refine h.upd ht rfl rfl rfl rfl rfl rfl (Or.inr ⟨(h1.owner_facts ht (by omega)).1, rfl⟩) ?_ ?_ ?_ ?_
   · rcases hk with rfl | rfl <;> simp [owned, inflight, hpc]
   · intro u
     exact vat_acquireInto_view_le' _ sh.ul (s.msgAt ch).rel u _ rfl
@@ -170,23 +170,23 @@ theorem Wf2.startStep {c : Cfg} (sh : Shape c) {s s' : State} (h1 : Wf1 c s) (h 
       rfl rfl rfl rfl rfl rfl rfl
     simp [owned, hpc]
   · -- clone
-    refine h.upd ht rfl rfl rfl rfl rfl rfl rfl ?_ (fun _ => Nat.le_refl _) (fun _ _ => hx) ?_
+    refine h.upd ht rfl rfl rfl rfl rfl rfl (Or.inl rfl) ?_ (fun _ => Nat.le_refl _) (fun _ _ => hx) ?_
     · simp [owned, inflight, hpc, sh.hincr, norm, localRet]
     · intro he; simp [excl] at he
   · -- drop
-    refine h.upd ht rfl rfl rfl rfl rfl rfl rfl ?_ (fun _ => Nat.le_refl _) (fun _ _ => hx) ?_
+    refine h.upd ht rfl rfl rfl rfl rfl rfl (Or.inl rfl) ?_ (fun _ => Nat.le_refl _) (fun _ _ => hx) ?_
     · simp [owned, inflight, hpc, sh.hdecr, norm, localRet]; omega
     · intro he; simp [excl, sh.hdecr, norm, localRet] at he
   · -- mutate
-    refine h.upd ht rfl rfl rfl rfl rfl rfl rfl ?_ (fun _ => Nat.le_refl _) (fun _ _ => hx) ?_
+    refine h.upd ht rfl rfl rfl rfl rfl rfl (Or.inl rfl) ?_ (fun _ => Nat.le_refl _) (fun _ _ => hx) ?_
     · simp [owned, inflight, hpc]
     · intro he; simp [excl, sh.huniq, norm, localRet] at he
   · -- unwrap
-    refine h.upd ht rfl rfl rfl rfl rfl rfl rfl ?_ (fun _ => Nat.le_refl _) (fun _ _ => hx) ?_
+    refine h.upd ht rfl rfl rfl rfl rfl rfl (Or.inl rfl) ?_ (fun _ => Nat.le_refl _) (fun _ _ => hx) ?_
     · simp [owned, inflight, hpc]
     · intro he; simp [excl, sh.huniq, norm, localRet] at he
   · -- count
-    refine h.upd ht rfl rfl rfl rfl rfl rfl rfl ?_ (fun _ => Nat.le_refl _) (fun _ _ => hx) ?_
+    refine h.upd ht rfl rfl rfl rfl rfl rfl (Or.inl rfl) ?_ (fun _ => Nat.le_refl _) (fun _ _ => hx) ?_
     · simp [owned, inflight, hpc]
     · intro he; simp [excl] at he
 
@@ -220,12 +220,13 @@ theorem Wf2.microStep {c : Cfg} (sh : Shape c) (ho : Ords sh) {s s' : State} (h1
   · -- clone
     have hh1 : 1 ≤ th.handles := hh (by simp)
     have hx : excl th = false := by simp [excl, hpc]
+    have hf0 : s.freed = 0 := (h1.owner_facts ht (by simp [owned]; omega)).1
     simp only [PcOk, sh.hincr, List.tail] at hok
     rcases hok with rfl | rfl | hl | hl
     · dsimp only at hs
       split at hs
       · simp only [Option.some.injEq] at hs; subst hs
-        refine h.loadStep ht _ _ _ ?_ hx ?_
+        refine h.loadStep ht hf0 _ _ _ ?_ hx ?_
         · simp [owned, inflight, hpc, norm, localRet]
         · simp [excl]
       · simp at hs
@@ -238,13 +239,13 @@ theorem Wf2.microStep {c : Cfg} (sh : Shape c) (ho : Ords sh) {s s' : State} (h1
           · simp at hs
         · split at hs
           · simp only [Option.some.injEq] at hs; subst hs
-            refine h.loadStep ht _ _ _ ?_ hx ?_
+            refine h.loadStep ht hf0 _ _ _ ?_ hx ?_
             · simp [owned, inflight, hpc, localRet]
             · simp [excl]
           · simp at hs
       · split at hs
         · simp only [Option.some.injEq] at hs; subst hs
-          refine h.upd ht rfl rfl rfl rfl rfl rfl rfl ?_ (fun _ => Nat.le_refl _) (fun _ _ => hx) ?_
+          refine h.upd ht rfl rfl rfl rfl rfl rfl (Or.inl rfl) ?_ (fun _ => Nat.le_refl _) (fun _ _ => hx) ?_
           · simp [owned, inflight, hpc, norm, localRet]
           · intro he; simp [excl] at he
         · simp at hs
@@ -380,13 +381,15 @@ theorem Wf2.microStep {c : Cfg} (sh : Shape c) (ho : Ords sh) {s s' : State} (h1
           exact h.fenceStep sh h1 ht hpc
         · simp at hs
   · -- count
+    have hh1 : 1 ≤ th.handles := hh (by simp)
     have hx : excl th = false := by simp [excl, hpc]
+    have hf0 : s.freed = 0 := (h1.owner_facts ht (by simp [owned]; omega)).1
     simp only [PcOk, sh.hget] at hok
     rcases hok with rfl | ⟨b, hl⟩
     · dsimp only at hs
       split at hs
       · simp only [Option.some.injEq] at hs; subst hs
-        refine h.loadStep ht _ _ _ ?_ hx ?_
+        refine h.loadStep ht hf0 _ _ _ ?_ hx ?_
         · simp [owned, inflight, hpc]
         · simp [excl]
       · simp at hs
